@@ -231,6 +231,18 @@ class SymChar:
         return f"ch#{self.cid}"
 
 
+class Native:
+    """A callable of the standard library modelled by the interpreter (operator.itemgetter(...), ...)."""
+    __slots__ = ("name", "fn")
+
+    def __init__(self, name: str, fn):
+        self.name = name
+        self.fn = fn
+
+    def __repr__(self):
+        return f"Native<{self.name}>"
+
+
 class FinExpr:
     """A value computed from a finite-set symbol by concrete operations: fn(member) for the eventual member."""
     __slots__ = ("cid", "fn", "desc")
@@ -845,7 +857,7 @@ class Interp:
             return v != 0
         if isinstance(v, str):
             return len(v) > 0
-        if isinstance(v, (Node, Cls, Fn, Bound, Builtin, Ext, Ident)):
+        if isinstance(v, (Node, Cls, Fn, Bound, Builtin, Ext, Ident, Native)):
             return True
         if isinstance(v, Rec):
             m = self._dunder(v, "__bool__")
@@ -1253,6 +1265,8 @@ class Interp:
             return self.call_builtin(f.name, args, kwargs)
         if isinstance(f, Ext):
             return self.call_ext(f.path, args, kwargs)
+        if isinstance(f, Native):
+            return f.fn(self, list(args), dict(kwargs))
         if isinstance(f, Opaque):
             h = self.hooks.get("opaque-call")
             if h is not None:
@@ -1447,6 +1461,16 @@ class Interp:
                 return Num(("fn", "round", self.to_term(args[0])))
             if name == "ord" and isinstance(args[0], SymChar) and self._fin(args[0]) is None:
                 return FinExpr(args[0].cid, ord, f"ord(ch{args[0].cid})")
+        if name == "iter" and len(args) == 1:
+            g = Lst(self.iter_items(args[0]))
+            g.is_gen = True
+            return g
+        if name == "next" and args and isinstance(args[0], Lst) and getattr(args[0], "is_gen", False):
+            if args[0].items:
+                return args[0].items.pop(0)
+            if len(args) > 1:
+                return args[1]
+            raise AbsRaise("StopIteration", self.site, "next() on an exhausted iterator")
         if name == "frozenset":
             return self.call_builtin("set", args, kwargs)
         if name == "dict":
@@ -1482,7 +1506,21 @@ class Interp:
     def _sorted(self, items: list, keyfn, reverse) -> list:
         if not isinstance(reverse, bool):
             reverse = self.truth(reverse, "reverse")
-        keys = [self._concrete_key(x, keyfn) for x in items]
+        try:
+            keys = [self._concrete_key(x, keyfn) for x in items]
+        except Unsupported:
+            if len(items) > 6:
+                raise
+            # abstract keys (number symbols ...): a stable insertion sort whose only primitive is `<`, as list.sort
+            # uses it; every comparison the facts do not settle forks the path
+            ks = [x if keyfn is None else self.call(keyfn, [x], {}) for x in items]
+            order: List[int] = []
+            for i in range(len(items)):
+                j = len(order)
+                while j > 0 and self.truth(self.compare(ast.Lt() if not reverse else ast.Gt(), ks[i], ks[order[j - 1]]), "sort"):
+                    j -= 1
+                order.insert(j, i)
+            return [items[i] for i in order]
         try:
             order = sorted(range(len(items)), key=lambda i: keys[i], reverse=reverse)
         except TypeError as ex:
@@ -1532,6 +1570,36 @@ class Interp:
             a = self.to_term(args[0])
             if a is not None:
                 return Num(("fn", "factorial", a))
+        if path == "operator.itemgetter" and args and all(isinstance(a, (int, str)) for a in args):
+            keys = list(args)
+
+            def getter(it2, a2, k2):
+                vals = [it2._subscript(a2[0], k) for k in keys]
+                return vals[0] if len(vals) == 1 else Tup(vals)
+            return Native(f"itemgetter{tuple(keys)!r}", getter)
+        if path == "operator.attrgetter" and args and all(isinstance(a, str) and "." not in a for a in args):
+            names = list(args)
+
+            def agetter(it2, a2, k2):
+                vals = [it2.getattr_(a2[0], n) for n in names]
+                return vals[0] if len(vals) == 1 else Tup(vals)
+            return Native(f"attrgetter{tuple(names)!r}", agetter)
+        if path == "itertools.groupby":
+            items = self.iter_items(args[0])
+            keyfn = args[1] if len(args) > 1 else kwargs.get("key")
+            groups: List[Tuple[Any, List[Any]]] = []
+            for x in items:
+                k = x if keyfn is None else self.call(keyfn, [x], {})
+                if groups and self._equal(groups[-1][0], k):
+                    groups[-1][1].append(x)
+                else:
+                    groups.append((k, [x]))
+            return Lst([Tup((k, Lst(g))) for k, g in groups])
+        if path == "itertools.chain":
+            out_items: List[Any] = []
+            for a in args:
+                out_items.extend(self.iter_items(a))
+            return Lst(out_items)
         if path in ("re.compile", "re.match", "re.fullmatch", "re.search"):
             from .regex import RegexUnsupported, get_regex
             pat = args[0] if args else kwargs.get("pattern")
@@ -2501,9 +2569,13 @@ class Interp:
                     out = self.concat(out, self.to_render(val))
         return out
 
-    def e_Subscript(self, e, env):
-        o = self.eval(e.value, env)
-        if isinstance(e.slice, ast.Slice):
+    def _subscript(self, o, k):
+        e = ast.Subscript(value=ast.Constant(value=None), slice=ast.Constant(value=None), ctx=ast.Load())
+        return self.e_Subscript(e, None, _pre=(o, k))
+
+    def e_Subscript(self, e, env, _pre=None):
+        o = self.eval(e.value, env) if _pre is None else _pre[0]
+        if _pre is None and isinstance(e.slice, ast.Slice):
             lo = self.eval(e.slice.lower, env) if e.slice.lower else None
             hi = self.eval(e.slice.upper, env) if e.slice.upper else None
             st = self.eval(e.slice.step, env) if e.slice.step else None
@@ -2520,7 +2592,7 @@ class Interp:
             if isinstance(o, SymStr):
                 return SymStr(o.items[lo:hi:st])
             raise Unsupported(f"slice of {o!r} at {self.site}")
-        k = self.eval(e.slice, env)
+        k = self.eval(e.slice, env) if _pre is None else _pre[1]
         if self._dunder(o, "__getitem__") is not None:
             return self.call_function(self._dunder(o, "__getitem__"), [o, k], {})
         if isinstance(o, (Lst, Tup)) and isinstance(k, int):
@@ -2638,7 +2710,13 @@ class Interp:
         return v
 
     def e_GeneratorExp(self, e, env):
-        return self.e_ListComp(e, env)
+        # evaluated eagerly (the element expressions of this package have no side effects); marked so that next() can
+        # consume it
+        out = self.e_ListComp(e, env)
+        if isinstance(out, Lst):
+            out = Lst(list(out.items))
+            out.is_gen = True
+        return out
 
     def e_Lambda(self, e, env):
         fd = ast.FunctionDef(name="<lambda>", args=e.args, body=[ast.Return(value=e.body)], decorator_list=[],
@@ -2674,7 +2752,8 @@ def _return_index(fn: ast.FunctionDef, st: ast.Return) -> int:
 
 _BUILTINS = {"all", "any", "sorted", "isinstance", "len", "bool", "print", "str", "repr", "type", "list", "tuple", "set", "int", "float",
              "abs", "min", "max", "range", "enumerate", "getattr", "hasattr", "super", "id", "dict", "zip", "reversed", "map",
-             "filter", "sum", "chr", "ord", "round", "divmod", "pow", "bin", "hex", "oct", "frozenset", "NotImplemented"}
+             "filter", "sum", "chr", "ord", "round", "divmod", "pow", "bin", "hex", "oct", "frozenset", "NotImplemented",
+             "iter", "next"}
 _EXC_NAMES = {"ValueError", "Exception", "NotImplementedError", "TypeError", "IndexError", "KeyError",
               "AssertionError", "AttributeError", "EnvironmentError", "RuntimeError"}
 
